@@ -43,6 +43,8 @@ _QUERY_PART_QUOTE_MAP = _U._QUERY_PART_QUOTE_MAP
 _PATH_DELIMS = _U._PATH_DELIMS
 _QUERY_DELIMS = _U._QUERY_DELIMS
 _HEX_CHAR_MAP = _U._HEX_CHAR_MAP
+import re
+_ASCII_RE = re.compile('([\\x00-\\x7f]+)')
 def to_unicode(obj):
     return str(obj)
 '''
@@ -87,6 +89,20 @@ def u_plain(string):
             res.append(item)
     return b''.join(res)
 ''', {'string': 'Str'}, 'Bytes'),
+    'u_runs': ('''
+def u_runs(string, errors='replace'):
+    if errors is None:
+        errors = 'strict'
+    bits = _ASCII_RE.split(string)
+    out = [bits[0]]
+    out.append('|')
+    for i in range(1, len(bits), 2):
+        if bits[i + 1]:
+            out.append(bits[i + 1])
+        out.append(u_plain(bits[i]).decode('utf8', errors))
+        out.append(':')
+    return ''.join(out)
+''', {'string': 'Str'}, 'Str'),
     'u_rebind': ('''
 def u_rebind(string, flag):
     bits = string.split('%')
@@ -106,6 +122,8 @@ def u_rebind(string, flag):
 }
 
 REJECT_HEAD = SNIPPET_HEAD + 'import boltons.urlutils as U\n'
+REJECT_CONST = ('constant parameter whose default differs', 'def f(text, errors="strict"):\n    return text\n',
+                {'text': 'Str'}, 'Str', {'errors': 'replace'})
 REJECT = [
     ('map lookup with an unguarded character', 'def f(text):\n    return "".join([_PATH_PART_QUOTE_MAP[t] for t in text])\n',
      {'text': 'Str'}, 'Str'),
@@ -145,6 +163,20 @@ REJECT = [
     ('negative slice bound', 'def f(text):\n    return text[:-1]\n', {'text': 'Str'}, 'Str'),
     ('keyword-only parameter', 'def f(text, *, k=1):\n    return text\n', {'text': 'Str'}, 'Str'),
     ('path without return', 'def f(text):\n    if text:\n        return text\n', {'text': 'Str'}, 'Str'),
+    ('regex compiled from another pattern',
+     'R2 = re.compile("([a-z]+)")\ndef f(text):\n    bits = R2.split(text)\n    return bits[0]\n', {'text': 'Str'}, 'Str'),
+    ('range with another step',
+     'def f(text):\n    bits = _ASCII_RE.split(text)\n    res = [bits[0]]\n    for i in range(1, len(bits), 3):\n'
+     '        res.append(bits[i])\n    return "".join(res)\n', {'text': 'Str'}, 'Str'),
+    ('range over a list not known to have odd length',
+     'def f(text):\n    bits = text.split("%")\n    res = [bits[0]]\n    for i in range(1, len(bits), 2):\n'
+     '        res.append(bits[i])\n    return "".join(res)\n', {'text': 'Str'}, 'Str'),
+    ('index i + 2 in the pair loop',
+     'def f(text):\n    bits = _ASCII_RE.split(text)\n    res = [bits[0]]\n    for i in range(1, len(bits), 2):\n'
+     '        res.append(bits[i + 2])\n    return "".join(res)\n', {'text': 'Str'}, 'Str'),
+    ('decode with errors=strict', 'def f(text):\n    return text.encode("utf8").decode("utf-8", "strict")\n',
+     {'text': 'Str'}, 'Str'),
+    ('decode with one argument', 'def f(text):\n    return text.encode("utf8").decode("utf-8")\n', {'text': 'Str'}, 'Str'),
     ('to_unicode of a bytes', 'def f(text):\n    return to_unicode(text.encode("utf8"))\n', {'text': 'Str'}, 'Str'),
 ]
 
@@ -158,15 +190,19 @@ def _cfg():
     return _CFG
 
 
-def _spec(name, params, result):
+def _spec(name, params, result, consts=None):
     return {'module': 'snippets', 'qualname': name, 'lean_name': name, 'params': params, 'result': result,
-            'kind': 'function', 'tie_theorem': '-', 'c06': _cfg()}
+            'kind': 'function', 'tie_theorem': '-', 'c06': _cfg(), 'consts': consts or {}}
+
+
+SNIPPET_CONSTS = {'u_runs': {'errors': 'replace'}}
 
 
 def reject_tests(verbose=False):
     bad = []
-    for what, src, params, result in REJECT:
-        text, infos = T.translate_source(REJECT_HEAD + src, [_spec('f', params, result)], 'snippets', 'snippets')
+    for what, src, params, result, *cs in REJECT + [REJECT_CONST]:
+        text, infos = T.translate_source(REJECT_HEAD + src, [_spec('f', params, result, cs[0] if cs else None)],
+                                         'snippets', 'snippets')
         if not infos[0].get('error'):
             bad.append((what, text))
         elif verbose:
@@ -189,6 +225,14 @@ def _texts(rng, quick):
     out = ['', '%', '%%', '%4', '%41', '%4g', '%g1', 'a%41', '%41%', '%4%41', '%%41', '%e9', '%E9%', '%c3%a9', 'a/b c?',
            '/?#[]@', ":@!$&'()*+,;=", 'é', 'Å', 'Å', 'ﬁ', '\U0001F600', '%F0%9F%98%80', '\x00\x7f\x80',
            '%4́', '%é', 'é%41', '%2', '%25', '%2%35', '%a', '%aA', '%Aa', '%fF', '%GG', '%  ', '% 4', '%+1', '%0x']
+    stress = [0x41, 0x7f, 0x80, 0xbf, 0xc0, 0xc1, 0xc2, 0xdf, 0xe0, 0xa0, 0x9f, 0xed, 0xee, 0xef, 0xf0, 0x90, 0x8f, 0xf4,
+              0xf5, 0xff, 0xe2, 0x82, 0xac]
+    for _ in range(150 if quick else 1500):      # percent-encoded byte strings that stress the UTF-8 decoder
+        k = rng.choice([1, 2, 3, 4, 5, 7])
+        t = ''.join(rng.choice(['%%%02X', '%%%02x']) % rng.choice(stress) for _ in range(k))
+        if rng.random() < 0.3:
+            t = t[:rng.randrange(len(t) + 1)] + rng.choice(['é', 'a', '%', '€%']) + t
+        out.append(t)
     n = 300 if quick else 3000
     for _ in range(n):
         k = rng.choice([0, 1, 2, 3, 4, 6, 9, 14])
@@ -264,7 +308,7 @@ def run(pids, quick=False, seed=0, verbose=True):
     for i in infos:
         if i.get('error'):
             raise common.InfraError('not translated: %s: %s' % (i['function'], i['error']))
-    sn_specs = [_spec(n, p, r) for n, (_, p, r) in SNIPPETS.items()]
+    sn_specs = [_spec(n, p, r, SNIPPET_CONSTS.get(n)) for n, (_, p, r) in SNIPPETS.items()]
     sn_src = SNIPPET_HEAD + ''.join(s for s, _, _ in SNIPPETS.values())
     sn_text, sn_infos = T.translate_source(sn_src, sn_specs, 'snippets', 'snippets')
     for i in sn_infos:
@@ -337,7 +381,7 @@ def run(pids, quick=False, seed=0, verbose=True):
             r['mismatches'] += 1
             mismatches.append((sp['lean_name'], repr(args), 'Python %r but Lean [%s]' % (want, got.strip())))
     rj = reject_tests(verbose=False)
-    report['_reject_tests'] = {'snippets': len(REJECT), 'not_refused': [w for w, _ in rj]}
+    report['_reject_tests'] = {'snippets': len(REJECT) + 1, 'not_refused': [w for w, _ in rj]}
     for what, _ in rj:
         mismatches.append(('reject-test', what, 'snippet outside the subset was translated'))
     ob = op_tests(mod, texts)
